@@ -67,6 +67,11 @@ func driveMSM(c *ctx) {
 				return prev[r.Intn(len(prev))]
 			}
 			return randBig(r, bigN)
+		case 6: // the scalar whose internal (Montgomery) limbs are {1,0,0,0}: 2^-256 mod n, NOT one
+			return new(big.Int).ModInverse(new(big.Int).Mod(big2_256, bigN), bigN)
+		case 7: // other values whose internal form is a limb pattern
+			mp := montPatternValues(r, bigN)
+			return mp[r.Intn(len(mp))]
 		default:
 			return randBig(r, bigN)
 		}
@@ -155,10 +160,10 @@ func driveMSM(c *ctx) {
 	// lengths 0..6: every (scalar class, point class) pair in the first two slots, random classes afterwards
 	for n := 0; n <= 6; n++ {
 		if n == 0 {
-			run(0, rnd(6), rnd(11), false, 0)
+			run(0, rnd(8), rnd(11), false, 0)
 			continue
 		}
-		for sc := 0; sc < 6; sc++ {
+		for sc := 0; sc < 8; sc++ {
 			for pc := 0; pc < 11; pc++ {
 				sc, pc := sc, pc
 				first := func(cls, m int) func(int) int {
@@ -169,7 +174,7 @@ func driveMSM(c *ctx) {
 						return r.Intn(m)
 					}
 				}
-				run(n, first(sc, 6), first(pc, 11), (sc+pc)%3 == 0, 0)
+				run(n, first(sc, 8), first(pc, 11), (sc+pc)%3 == 0, 0)
 			}
 		}
 	}
@@ -215,8 +220,8 @@ func driveMSM(c *ctx) {
 	}
 	// mismatched lengths
 	for n := 0; n <= 3; n++ {
-		run(n, rnd(6), rnd(11), false, 1)
-		run(n, rnd(6), rnd(11), false, -1)
+		run(n, rnd(8), rnd(11), false, 1)
+		run(n, rnd(8), rnd(11), false, -1)
 	}
 	// long lists
 	longs := []int{7, 8, 15, 16, 31, 32, 33, 64, 65, 67, 129, 130}
@@ -224,10 +229,10 @@ func driveMSM(c *ctx) {
 		longs = append(longs, 100, 127, 191, 193, 255, 257)
 	}
 	for _, n := range longs {
-		run(n, rnd(6), rnd(11), n%2 == 1, 0)
+		run(n, rnd(8), rnd(11), n%2 == 1, 0)
 	}
 	for i := 0; i < c.scale(10, 300); i++ {
-		run(2+r.Intn(5), rnd(6), rnd(11), i%2 == 0, 0)
+		run(2+r.Intn(5), rnd(8), rnd(11), i%2 == 0, 0)
 	}
 
 	// ---- DoubleScalarMultBasepointVartime
